@@ -4,6 +4,7 @@ import Circomspect.Model.Strip
 import Circomspect.Spec.Strip
 import Circomspect.Model.Curve
 import Circomspect.Model.Runner
+import Circomspect.Model.Dominators
 
 namespace Driver
 open Circomspect
@@ -150,12 +151,40 @@ def runnerCmd (args : List String) : String :=
       s!"exit {Runner.exitCode o p order} # written {Runner.written o p order} # {Runner.summary o p order} # {b} # {showReports (Runner.displayed o p order)} # {showReports (Runner.sarif o p order)}"
   | _ => "bad-op"
 
+def showCsv (l : List Nat) : String := if l.isEmpty then "-" else ",".intercalate (l.map toString)
+
+def domCmd (spec : Bool) (args : List String) : String :=
+  match args with
+  | ns :: ps =>
+    match ns.toNat? with
+    | none => "bad-op"
+    | some n =>
+      if ps.length != n then "bad-op" else
+      let predList : List (List Nat) := ps.map (fun p => (csv p ",").filterMap String.toNat?)
+      let g : Graph.Graph := { n := n, pred := fun i => predList.getD i [] }
+      match Dominators.computeDominators g with
+      | none => "no-fixpoint"
+      | some D =>
+        let idom := Dominators.idoms g D
+        if idom 0 != .none then "panic assert idom[0].is_none()" else
+        if (List.range n).any (fun i => idom i == .panic) then "panic assert idom_candidates.len() <= 1" else
+        let row (i : Nat) : String :=
+          let d := Dominators.members n (D i)
+          let id := match idom i with | .some j => toString j | _ => "-"
+          let c := Dominators.children g idom i
+          let f := (List.range n).filter (fun j => Dominators.inFrontier g idom i j)
+          s!"D={showCsv d} I={id} C={showCsv c} F={showCsv f}"
+        let _ := spec
+        ";".intercalate ((List.range n).map row)
+  | _ => "bad-op"
+
 def handle (line : String) : String :=
   match line.splitOn " " with
   | "field" :: args => fieldCmd args
   | "fieldspec" :: args => fieldSpecCmd args
   | "c11" :: args => c11Cmd args
   | "runner" :: args => runnerCmd args
+  | "dom" :: args => domCmd false args
   | "strip" :: args => stripCmd false args
   | "stripspec" :: args => stripCmd true args
   | _ => "bad-op"
